@@ -76,7 +76,10 @@ def take(model) -> Snap:
                     pu=_unit_str(p.PreferredUnits), ut=_unit_str(p.UnitType), provided=p.Provided, valid=p.Valid,
                     min=getattr(p, 'Min', None), max=getattr(p, 'Max', None),
                     default=_copy_value(getattr(p, 'DefaultValue', None)),
-                    allowable=list(getattr(p, 'AllowableRange', []) or []))
+                    allowable=[] if len(getattr(p, 'AllowableRange', []) or []) > 1000 else list(getattr(p, 'AllowableRange', []) or []))
+            elif not attr.startswith('_') and isinstance(p, (int, float, bool, np.generic, np.ndarray)) or (
+                    isinstance(p, list) and (not p or isinstance(p[0], (int, float, np.generic)))):
+                d[attr] = SimpleNamespace(kind='plain', name=attr, value=_copy_value(p), cu=None, pu=None, ut=None)
         d['__class__'] = type(obj).__name__
         snap[sec] = d
     # a few plain attributes oracles need
@@ -130,3 +133,19 @@ def numeric_fields(snap: Snap, kinds=('out',)):
                 v = v.value
             out[f'{sec}.{attr}'] = v
     return out
+
+
+def enum_int(v):
+    """int id of an option enum value (GeophiresInputEnum carries int_value); plain ints pass through."""
+    iv = getattr(v, 'int_value', None)
+    if iv is not None:
+        return int(iv)
+    if isinstance(v, Enum):
+        try:
+            return int(v.value)
+        except (TypeError, ValueError):
+            return None
+    try:
+        return int(v)
+    except (TypeError, ValueError):
+        return None
